@@ -95,6 +95,113 @@ def check_stage(ctx, st: Stage, n, rng, splits):
     ctx.count(f"stage_{st.name}")
 
 
+def tie_columns(inputs):
+    """the per-event arguments of a stage, one entry per scalar argument: ('u4', r) for the rows of the (4, N) geometry numbers,
+    (key, None) otherwise (a per-event row of an (N, m) array counts as ONE argument)"""
+    return [(k, r) for k, v in inputs.items() for r in (range(v.shape[0]) if k == "u4" else (None,))]
+
+
+def tie_batch(inputs, ia, ib, masks):
+    """event j takes argument c from row `ib` if bit c of masks[j] is set, else from row `ia`"""
+    cols = tie_columns(inputs)
+    out = {k: (np.repeat(v[:, [ia]], len(masks), axis=1) if k == "u4" else np.repeat(v[[ia]], len(masks), axis=0)) for k, v in inputs.items()}
+    for c, (k, r) in enumerate(cols):
+        sel = np.array([(m >> c) & 1 == 1 for m in masks])
+        if k == "u4":
+            out[k][r, sel] = inputs[k][r, ib]
+        else:
+            out[k][sel] = inputs[k][ib]
+    return out
+
+
+def check_ties(ctx, st: Stage, rng):
+    """Batches with TIES.  The statement quantifies over ALL event batches ("permuting the events permutes the outputs, splitting a batch
+    at any point and concatenating gives identical results", "including single-event batches"): that includes batches in which events
+    agree bit for bit in SOME of their per-event arguments and differ in the others (an energy scan at one geometry, one shower seen at
+    several sites, one random number reused, a grid that lists a point twice).  Random batches never contain such events, and a stage
+    that groups / sorts / de-duplicates / looks results up BY VALUE of some of its arguments is only exposed by them.
+    For a stage with k per-event arguments, two events A, B of the stage's own generator (differing in every argument) span the cube
+    { e_m : argument c of e_m = (B if bit c of m else A) }, m < 2^k.  Two events e_m, e_m' share exactly the arguments where m and m'
+    agree, so for EVERY subset S of the arguments (empty, proper, full) the batch contains groups of events that agree on S and differ
+    elsewhere; exact duplicates (S = everything) are appended.  The batch is compared with one-event-at-a-time evaluation, under
+    reversal (which changes the first member of every tied group) and random permutation, and under splits (which separate tied events)."""
+    base = st.make(9)                                      # the generators put their special rows (mask edges, NaN) first: rows 7, 8 are generic
+    cols = tie_columns(base)
+    k = len(cols)
+    cap = 32 if st.expensive else (512 if ctx.thorough else 128)
+    rounds = [(7, 8)] if st.expensive else [(7, 8)] + [tuple(int(x) for x in rng.choice(9, 2, replace=False)) for _ in range(2)]   # + pairs with the special rows
+    for ia, ib in rounds:
+        if 2 ** k <= cap:
+            masks = list(range(2 ** k))
+        else:                                              # a sample of the cube; the subsets actually tied are counted below
+            masks = [0, 2 ** k - 1] + [int(x) for x in rng.choice(np.arange(1, 2 ** k - 1), cap - 2, replace=False)]
+        masks = [masks[i] for i in rng.permutation(len(masks))]
+        extra = [masks[int(i)] for i in rng.integers(0, len(masks), 3)]
+        masks = masks + extra + extra[:1]                  # exact duplicates: three events listed twice, one of them three times
+        masks = [masks[i] for i in rng.permutation(len(masks))]
+        n = len(masks)
+        inputs = tie_batch(base, ia, ib, masks)
+        before = {kk: v.copy() for kk, v in inputs.items()}
+        ctx.count("tie_subsets_covered", len({a ^ b for a in masks for b in masks}))
+        ctx.count("tie_subsets_possible", 2 ** k)
+
+        def describe(i, whole, other, how):
+            ev = {f"{kk}[{r}]" if r is not None else kk: np.asarray(before[kk][r, i] if kk == "u4" else before[kk][i]).ravel()[:4].tolist() for kk, r in cols}
+            names = [f"{kk}[{r}]" if r is not None else kk for kk, r in cols]
+            partners = [{"event": j, "differs_only_in": [names[c] for c in range(k) if (masks[i] ^ masks[j]) >> c & 1]}
+                        for j in sorted((j for j in range(n) if masks[j] != masks[i]), key=lambda j: bin(masks[i] ^ masks[j]).count("1"))[:4]]
+            batch = {f"{kk}[{r}]" if r is not None else kk: (before[kk][r] if kk == "u4" else before[kk]).tolist() for kk, r in cols
+                     if (before[kk][r] if kk == "u4" else before[kk]).ndim == 1} if n <= 64 else "see base events / which_event_each_argument_comes_from"
+            return {"stage": st.name, "relation": how, "n": n, "event": int(i), "event_inputs": ev,
+                    "in_whole_batch": [np.asarray(o[i]).ravel()[:4].tolist() for o in whole], "in_other_evaluation": [np.asarray(o).ravel()[:4].tolist() for o in other],
+                    "closest_tied_events": partners, "arguments": [f"{kk}[{r}]" if r is not None else kk for kk, r in cols],
+                    "which_event_each_argument_comes_from": [format(m, f"0{k}b")[::-1] for m in masks] if n <= 64 else "omitted", "batch": batch}
+        import contextlib
+        import dask
+        # the optical stage hands its events to a dask bag (default: a fresh process pool per call, seconds each): this stream is about the
+        # composition of the batch, not the scheduler (C10 varies that), so its ~150 calls run the same code in-process
+        try:
+            with (dask.config.set(scheduler="synchronous") if st.expensive else contextlib.nullcontext()):
+                whole = st.call({kk: v.copy() for kk, v in before.items()})
+                ctx.case((st.name, "ties", ia, ib, n))
+                distinct = len({tuple(np.asarray(o[i]).tobytes() for o in whole) for i in range(n)})
+                ctx.count("tie_batches_with_distinct_results" if distinct > 1 else "tie_batches_all_results_equal")
+                # one event at a time
+                for i in range(n):
+                    one = st.call(take(before, [i]))
+                    ctx.case((st.name, "ties-single", ia, ib, masks[i]))
+                    if not all(len(b) == 1 and same(a[i], b[0]) for a, b in zip(whole, one)):
+                        ctx.violation(st.name, "ties-batch-vs-single", "in a batch whose events agree in some of their arguments and differ in the others, an event's "
+                                      "result differs from the same event evaluated alone", describe(i, whole, [b[0] for b in one], "single-event batch"))
+                        break
+                # reversal and (cheap stages) a random permutation
+                for pname, perm in [("reversed", np.arange(n)[::-1])] + ([] if st.expensive else [("random permutation", rng.permutation(n))]):
+                    outp = st.call(take(before, perm))
+                    ctx.case((st.name, "ties-perm", ia, ib, pname))
+                    if not all(same(a[perm], b) for a, b in zip(whole, outp)):
+                        j = next(j for j in range(n) if not all(same(a[perm][j], b[j]) for a, b in zip(whole, outp)))
+                        ctx.violation(st.name, "ties-permutation", "in a batch whose events agree in some of their arguments and differ in the others, permuting the "
+                                      "events does not permute the outputs", {**describe(int(perm[j]), whole, [b[j] for b in outp], pname), "perm": perm.tolist() if n <= 64 else "omitted"})
+                # splits
+                splits = [n // 2] if st.expensive else (list(range(1, n)) if n <= 40 else sorted({1, n // 2, n - 1} | {int(x) for x in rng.integers(1, n, 5)}))
+                for s in splits:
+                    a = st.call(take(before, np.arange(0, s))); b = st.call(take(before, np.arange(s, n)))
+                    ctx.case((st.name, "ties-split", ia, ib, s))
+                    cat = tuple(np.concatenate([a[i], b[i]]) for i in range(len(whole)))
+                    if not all(same(x, y) for x, y in zip(whole, cat)):
+                        j = next(j for j in range(n) if not all(same(x[j], y[j]) for x, y in zip(whole, cat)))
+                        ctx.violation(st.name, "ties-split", f"in a batch whose events agree in some of their arguments and differ in the others, splitting at {s} and "
+                                      "concatenating differs from the whole batch", {**describe(j, whole, [y[j] for y in cat], f"split at {s}"), "split": int(s)})
+        except Exception as e:  # noqa
+            import traceback
+            ctx.violation(st.name, "raises", f"{type(e).__name__}: {str(e)[:150]}", {"stage": st.name, "stream": "ties", "n": n, "trace": traceback.format_exc()[-600:]})
+        ctx.count(f"ties_{st.name}")
+
+
+RULE += ("; plus, per stage, batches with TIES: the cube spanned by two events over the k per-event arguments (every subset of the arguments shared "
+         "by some events that differ in the others; exact duplicates appended), compared with one-event-at-a-time evaluation, reversed, permuted and split")
+
+
 def site_cloud(lat, long):
     """a cloud top (km) that depends on the ground site"""
     return float(0.5 + 4.0 * (float(lat) + 1.0) + 0.3 * float(long))
@@ -284,6 +391,7 @@ def run(ctx: Ctx):
             except Exception as e:  # noqa
                 import traceback
                 ctx.violation(st.name, "raises", f"{type(e).__name__}: {str(e)[:150]}", {"stage": st.name, "n": n, "trace": traceback.format_exc()[-600:]})
+        check_ties(ctx, st, rng)      # batches whose events agree in some arguments and differ in the others (every subset of the arguments)
     # ---- tau energy around the iterator buffer
     # (and far beyond it: a production run samples 1e5..1e7 events in one call)
     big = [8191, 8192, 8193, 16385, 65537, 131073, 300001] if ctx.thorough else [8193, int(rng.integers(65537, 90000))]
